@@ -380,6 +380,18 @@ def simplify(e):
             for f, v in base[1][3]:
                 if f == e[2]:
                     return v
+        if e[2] == "0" and base[0] == "downcast" and base[2] == "Continue" and base[1][0] == "call" \
+                and (base[1][4] or base[1][1]).endswith("Try::branch") and base[1][2]:
+            # `r?` where r was built right here as Ok(v) / Err(e) on different paths (what `.ok_or(e)?` and
+            # `.ok_or_else(..)?` normalise to): the value that continues is the Ok payload
+            r = base[1][2][0]
+            while r[0] in ("ref", "deref"):
+                r = r[1]
+            alts = r[1] if r[0] == "phi" else [r]
+            if len(alts) >= 2 and all(a[0] == "agg" and a[2] in ("Ok", "Err", "Some", "None") for a in alts):
+                vals = [v for a in alts if a[2] in ("Ok", "Some") for f, v in a[3] if f == "0"]
+                if vals and all(v == vals[0] for v in vals):
+                    return vals[0]
     return e
 
 
@@ -1205,7 +1217,7 @@ def root_local(fn, op_or_place):
         seen.add(l)
         if fn.locals[l].get("user") or fn.is_param(l):
             return l
-        sd = fn.single_def(l)
+        sd = fn.single_stmt_def(l)
         if sd is None or sd[2] != "assign":
             return l
         rv = fn.blocks[sd[0]]["stmts"][sd[1]]["rv"]
@@ -1309,6 +1321,51 @@ def payload_of_merge(e):
             if vals and all(strip_refs(v) == strip_refs(vals[0]) for v in vals):
                 return vals[0]
     return e
+
+
+def deep_payload(e, _depth=0):
+    """payload_of_merge applied bottom-up through an expression, re-simplifying field reads of the tuples / aggregates
+    it uncovers: `((phi(Some{(a, b)} | None) as Some).0).1` is b."""
+    if not isinstance(e, tuple) or _depth > 30:
+        return e
+    out = []
+    for x in e:
+        if isinstance(x, tuple):
+            out.append(deep_payload(x, _depth + 1))
+        elif isinstance(x, list):
+            out.append([deep_payload(y, _depth + 1) if isinstance(y, tuple) else y for y in x])
+        else:
+            out.append(x)
+    ne = tuple(out)
+    if ne and ne[0] == "field":
+        pm = payload_of_merge(ne)
+        if pm is not ne:
+            return pm
+        base = peel(ne[1]) if isinstance(ne[1], tuple) else ne[1]
+        if isinstance(base, tuple) and base and base[0] in ("tuple", "agg"):
+            return simplify(("field", base, ne[2]) + tuple(ne[3:]))
+    return ne
+
+
+RANGE_ADTS = ("std::ops::Range", "std::ops::RangeTo", "std::ops::RangeFrom", "std::ops::RangeFull")
+
+
+def is_empty_name(n):
+    """`v.is_empty()` on a Vec or on the slice it derefs to (what first() / last() / split_last() normalise to)"""
+    return n.endswith("Vec::<T, A>::is_empty") or n.endswith("<impl [T]>::is_empty")
+
+
+def subslice(e):
+    """`base[s .. e]` however the range is spelt (`a..b`, `..b`, `a..`, `..`): (base, start | None, end | None) of an
+    `Index::index(base, range)` expression (None = the respective end of base), or None when e is something else."""
+    pe = peel(deep_payload(e))
+    if pe[0] != "call" or not pe[1].endswith("::index") or len(pe[2]) != 2:
+        return None
+    rng = peel(pe[2][1])
+    if rng[0] != "agg" or rng[1] not in RANGE_ADTS:
+        return None
+    fields = dict(rng[3])
+    return pe[2][0], fields.get("start"), fields.get("end")
 
 
 def is_err_value(e):
